@@ -83,7 +83,11 @@ func travWorker(c *evid.Ctx, prop string) {
 		count := 0
 		for {
 			gr := gen.New(seed, "graph")
-			net := trav.GenNet(gr, "tiny")
+			cls := "tiny"
+			if !c.Quick() && g%2 == 1 {
+				cls = "small" // 4-7 nodes: schedule spaces of up to tens of thousands
+			}
+			net := trav.GenNet(gr, cls)
 			l := trav.NewLookup(net)
 			out := l.Run(ch, gen.New(seed, "run"), trav.Policy{Strategy: "enum"})
 			count++
